@@ -646,7 +646,17 @@ func (v *View) checkC04(res *Result) {
 			}
 			if a.API == "ValidateTokenOrDemote" {
 				res.Obs["c04.ordemote_false"]++
-				if a.PostFlag {
+				demotedByCall := false
+				if a.Ret >= 0 {
+					g := v.Ev[a.Call].G
+					for j := a.Call + 1; j < a.Ret; j++ {
+						if ev := v.Ev[j]; ev.Kind == "flag" && ev.Inst == a.Inst && !ev.Flag && ev.G == g && v.termEndsAt(a.Inst, j) {
+							demotedByCall = true // (its slow OnDemote may keep the call from returning while the instance is elected again)
+							break
+						}
+					}
+				}
+				if a.PostFlag && !demotedByCall {
 					// leading at the return, in a term that was already running when the verdict was
 					// reached (the call's last read had not returned yet): that term was not demoted.
 					// (A term that began after it is a re-election following the demotion.)
@@ -1112,8 +1122,8 @@ func (v *View) checkC10(res *Result) {
 			}
 			skip := false
 			for _, o := range v.Spec.Insts {
-				if o.Name != is.Name && o.Name != t.Inst && o.Group == is.Group && o.Takeover && o.Priority >= is.Priority {
-					skip = true // another candidate at least as high may legitimately get there first
+				if o.Name != is.Name && o.Name != t.Inst && o.Group == is.Group && o.Takeover && o.Priority >= is.Priority && v.runningWithin(o.Name, base, dl) {
+					skip = true // another candidate at least as high (and running) may legitimately get there first
 				}
 			}
 			for _, a := range v.APIs {
